@@ -20,7 +20,7 @@ from .._compat import string_types
 
 @dispatcher.register_for('CHAR')
 def CHAR(number):
-    number = utils.parse_number(number)
+    number = utils.parse_integer(number)
     if isinstance(number, error.XLError):
         return number
     return chr(number)
@@ -137,6 +137,9 @@ def TEXTJOIN(delimiter, ignore_empty, *args):
 
 @dispatcher.register_for('LEFT', 'LEFTB')
 def LEFT(text, num_chars=1):
+    num_chars = utils.parse_integer(num_chars)
+    if isinstance(num_chars, error.XLError):
+        return num_chars
     if num_chars < 0 or not isinstance(text, string_types):
         return error.VALUE
     return text[:num_chars]
@@ -144,6 +147,9 @@ def LEFT(text, num_chars=1):
 
 @dispatcher.register_for('RIGHT', 'RIGHTB')
 def RIGHT(text, num_chars=1):
+    num_chars = utils.parse_integer(num_chars)
+    if isinstance(num_chars, error.XLError):
+        return num_chars
     if num_chars < 0 or not isinstance(text, string_types):
         return error.VALUE
     if num_chars == 0:
@@ -153,6 +159,10 @@ def RIGHT(text, num_chars=1):
 
 @dispatcher.register_for('MID', 'MIDB')
 def MID(text, start_num, num_chars=1):
+    start_num = utils.parse_integer(start_num)
+    num_chars = utils.parse_integer(num_chars)
+    if utils.any_is_error((start_num, num_chars)):
+        return error.VALUE
     if start_num < 1 or num_chars < 0 or not isinstance(text, string_types):
         return error.VALUE
     return text[start_num - 1:][:num_chars]
